@@ -178,7 +178,7 @@ impl Property for C11 {
         1600
     }
     fn quick_cases(&self) -> u64 {
-        64_000
+        128_000
     }
     fn states_termination(&self) -> bool {
         true
